@@ -537,10 +537,12 @@ func genChain(r *rand.Rand) []def {
 				}
 			}
 		}
-		// (the universe: equality / serialization never name a member function)
+		// equality / serialization name a member function only now and then (EQUALITY_NOT_ATTRIBUTE / SERIALIZATION_NOT_ATTRIBUTE)
 		isFn := map[string]bool{}
-		for _, f := range s.funcs[i] {
-			isFn[f.name] = true
+		if r.Intn(12) != 0 {
+			for _, f := range s.funcs[i] {
+				isFn[f.name] = true
+			}
 		}
 		noFn := func(ns []string) []string {
 			var out []string
@@ -569,6 +571,9 @@ func genChain(r *rand.Rand) []def {
 			for _, a := range s.all[i] {
 				allNames = append(allNames, a.name)
 			}
+			for _, f := range s.funcs[i] {
+				allNames = append(allNames, f.name)
+			}
 			allNames = append(noFn(allNames), "zz")
 			dd.eqKind = "l"
 			for k := r.Intn(3); k >= 0; k-- {
@@ -592,6 +597,9 @@ func genChain(r *rand.Rand) []def {
 			var allNames []string
 			for _, a := range s.all[i] {
 				allNames = append(allNames, a.name)
+			}
+			for _, f := range s.funcs[i] {
+				allNames = append(allNames, f.name)
 			}
 			allNames = append(noFn(allNames), "zz")
 			dd.hasSer = true
